@@ -13,6 +13,7 @@ import (
 	"strings"
 
 	"golang.org/x/tools/go/ssa"
+	"golang.org/x/tools/go/ssa/ssautil"
 )
 
 // ---------- constants ----------
@@ -1332,4 +1333,148 @@ func returnsValueOf(fn *ssa.Function, v ssa.Value) bool {
 		}
 	}
 	return false
+}
+
+// valueOrigins follows a value backwards through φ-nodes, tuple extraction,
+// conversions and loads of local cells (to the values stored there) and
+// returns the canonical names of the calls it can come from; "?" stands for an
+// origin that is not a call (parameter, constant, arithmetic, ...).
+func valueOrigins(v ssa.Value) []string {
+	set := map[string]bool{}
+	seen := map[ssa.Value]bool{}
+	var rec func(v ssa.Value, d int)
+	rec = func(v ssa.Value, d int) {
+		if v == nil || seen[v] || d > 20 {
+			return
+		}
+		seen[v] = true
+		switch x := v.(type) {
+		case *ssa.Phi:
+			for _, e := range x.Edges {
+				rec(e, d+1)
+			}
+		case *ssa.Extract:
+			rec(x.Tuple, d+1)
+		case *ssa.Convert:
+			rec(x.X, d+1)
+		case *ssa.ChangeType:
+			rec(x.X, d+1)
+		case *ssa.Call:
+			n, _ := calleeOf(x)
+			set[n] = true
+		case *ssa.Parameter:
+			// follow into the static call sites of the function (same package)
+			fn := x.Parent()
+			idx := -1
+			for i, pr := range fn.Params {
+				if pr == x {
+					idx = i
+				}
+			}
+			sites := staticCallSites(fn)
+			if idx < 0 || len(sites) == 0 {
+				set["?"] = true
+				return
+			}
+			for _, cs := range sites {
+				if idx < len(cs.Common().Args) {
+					rec(cs.Common().Args[idx], d+1)
+				}
+			}
+		case *ssa.UnOp:
+			if x.Op == token.MUL {
+				cell := x.X
+				found := false
+				if refs := cell.Referrers(); refs != nil {
+					for _, r := range *refs {
+						if st, ok := r.(*ssa.Store); ok && st.Addr == cell {
+							found = true
+							rec(st.Val, d+1)
+						}
+					}
+				}
+				if fv, ok := cell.(*ssa.FreeVar); ok {
+					// captured variable: look at the stores in the enclosing function
+					if mc := closureSiteOf(fv); mc != nil {
+						found = true
+						rec2 := &ssa.UnOp{}
+						_ = rec2
+						for _, r := range *mc.Referrers() {
+							if st, ok := r.(*ssa.Store); ok && st.Addr == mc {
+								rec(st.Val, d+1)
+							}
+						}
+					}
+				}
+				if !found {
+					set["?"] = true
+				}
+				return
+			}
+			set["?"] = true
+		default:
+			set["?"] = true
+		}
+	}
+	rec(v, 0)
+	var out []string
+	for k := range set {
+		out = append(out, k)
+	}
+	sort.Strings(out)
+	return out
+}
+
+// closureSiteOf returns the value bound to free variable fv where its closure is created.
+func closureSiteOf(fv *ssa.FreeVar) ssa.Value {
+	fn := fv.Parent()
+	if fn == nil || fn.Parent() == nil {
+		return nil
+	}
+	idx := -1
+	for i, f := range fn.FreeVars {
+		if f == fv {
+			idx = i
+		}
+	}
+	if idx < 0 {
+		return nil
+	}
+	for _, b := range fn.Parent().Blocks {
+		for _, in := range b.Instrs {
+			if mc, ok := in.(*ssa.MakeClosure); ok && mc.Fn == ssa.Value(fn) && idx < len(mc.Bindings) {
+				return mc.Bindings[idx]
+			}
+		}
+	}
+	return nil
+}
+
+var callSiteCache = map[*ssa.Function][]ssa.CallInstruction{}
+var callSiteCacheFor *ssa.Program
+
+// staticCallSites lists the call instructions of the program that statically call fn.
+func staticCallSites(fn *ssa.Function) []ssa.CallInstruction {
+	if fn == nil || fn.Prog == nil {
+		return nil
+	}
+	if callSiteCacheFor != fn.Prog {
+		callSiteCacheFor = fn.Prog
+		callSiteCache = map[*ssa.Function][]ssa.CallInstruction{}
+		for f := range ssautil.AllFunctions(fn.Prog) {
+			if f.Pkg == nil || !strings.HasPrefix(f.Pkg.Pkg.Path(), repoModule) {
+				continue
+			}
+			for _, b := range f.Blocks {
+				for _, in := range b.Instrs {
+					if ci, ok := in.(ssa.CallInstruction); ok {
+						if callee := ci.Common().StaticCallee(); callee != nil {
+							callSiteCache[callee] = append(callSiteCache[callee], ci)
+						}
+					}
+				}
+			}
+		}
+	}
+	return callSiteCache[fn]
 }
